@@ -205,14 +205,14 @@ CHECKS["C03"] = {
         "quick": [{"pkg": "internal/forwarder", "entries": ["ZZ_C03_*"], "witnesses": 3, "max_paths": 200000}],
         "thorough": [{"pkg": "internal/forwarder", "entries": ["ZZ_C03_*"], "witnesses": 6, "max_paths": 3000000, "budget_s": 3000}],
     },
-    "covers": {"all": ["ZZ_C03_CreateQER:C03.qer.done", "ZZ_C03_UpdateQER:C03.qer.done", "ZZ_C03_CreateURR:C03.urr.done", "ZZ_C03_CreateURR:C03.urr.perio",
+    "covers": {"all": ["ZZ_C03_URRPeriod:C03.urr.period.done", "ZZ_C03_CreateQER:C03.qer.done", "ZZ_C03_UpdateQER:C03.qer.done", "ZZ_C03_CreateURR:C03.urr.done", "ZZ_C03_CreateURR:C03.urr.perio",
                        "ZZ_C03_CreateURR:C03.urr.nonperio", "ZZ_C03_UpdateURR:C03.urr.update.done", "ZZ_C03_RemoveURR:C03.rmurr.done",
                        "ZZ_C03_CreateBAR:C03.bar.done", "ZZ_C03_UpdateBAR:C03.bar.done", "ZZ_C03_RemoveQERBAR:C03.rm.done"]},
     "bounds": {
-        "quick": "Create/Update QER, URR, BAR and the removals with every IE payload byte, the SEID and the link index symbolic (40-bit rates, 64-bit volumes, flag octets, 32-bit periods >= 1 s); 3 presence profiles per rule kind (BAR: all 4 subsets); child order: every rotation, plain and reversed",
+        "quick": "Create/Update QER, URR, BAR and the removals with every IE payload byte, the SEID and the link index symbolic (40-bit rates, 64-bit volumes, flag octets, 32-bit periods >= 1 s); the Measurement Period attribute value for the concrete periods 1, 4, 5, 10, 60, 3600, 86400 and 2^32-1 s on Create and Update URR (must be the period in s, ms, us or ns without wrap-around); 3 presence profiles per rule kind (BAR: all 4 subsets); child order: every rotation, plain and reversed",
         "thorough": "all 2^7 QER and 2^6 URR presence subsets, Reporting Triggers of 2 and 3 octets, all 7x7 non-empty threshold/quota flag subsets; same orders",
     },
-    "outside": "duration thresholds, time quota, event-based IEs (not supported by the driver); the URR_MEASUREMENT_PERIOD netlink attribute value (nanoseconds truncated to 32 bits, marked TODO in the code) is only width-checked; IE lengths other than nominal (C07)",
+    "outside": "duration thresholds, time quota, event-based IEs (not supported by the driver); IE lengths other than nominal (C07)",
     "assumptions": FWD_ASSUME + ["spare bits of Gate Status, QFI, RQI, PPI, Measurement Method are zero (well-formed IEs)"],
 }
 
